@@ -9,7 +9,15 @@ try:
 except FileNotFoundError:
     pass
 checks, na = [], []
+WIP = set()
+try:
+    WIP = set(json.load(open('/verif/tools/wip.json')))
+except FileNotFoundError:
+    pass
 for p in props:
+    if p in WIP:
+        na.append({'property_id': p, 'reason': PENDING.get(p, 'check under construction in this round (model being re-validated after fix commits); not claimed yet')})
+        continue
     if os.path.exists('/verif/checks/%s.py' % p.lower()):
         m = importlib.import_module('checks.' + p.lower()).META
         checks.append({
